@@ -27,7 +27,7 @@ def required_tags(tier):
     return ['net:' + k for k in ['resistor', 'conductor', 'impedance', 'admittance', 'linear_current_source', 'current_source', 'real_current_source',
                                  'linear_voltage_source', 'voltage_source', 'real_voltage_source', 'short_circuit', 'open_circuit']] + \
            ['notation:ri', 'notation:pr', 'to_complex:degree', 'second_load', 'from_json', 'circ:impedance', 'circ:ac_voltage_source', 'circ:complex_current_source',
-            'doc:json', 'doc:yaml', 'doc:nested_list', 'doc:complex', 'written:cartesian', 'written:polar_rad', 'written:polar_deg']
+            'doc:json', 'doc:yaml', 'doc:nested_list', 'doc:complex', 'written:cartesian', 'written:polar_rad', 'written:polar_deg', 'shared_block', 'yaml_alias']
 
 
 def written_py(wr):
@@ -276,6 +276,25 @@ def replay_written(case, ctx, r, tg):
                 r.mismatches.append({'what': f'undictify_all_complex_values: the description ({notation} notation) after load {k}', 'got': snapshot(doc)[:400], 'want': snap[:400],
                                      'signature': f'mutated:undictify_all_complex_values:{notation}', 'detail': ''})
                 break
+        # the same description block referred to several times (YAML anchors / aliases, or one Python object used at several places)
+        sub = written_doc(case['ndoc'], notation)
+        shared = {'first': sub, 'again': sub, 'in_list': [sub, {'nested': sub}]}
+        want_shared = {'first': want, 'again': want, 'in_list': [want, {'nested': want}]}
+        tg.add('shared_block')
+        got, e = call(dump_load.undictify_all_complex_values, shared)
+        r.observations += 1
+        if e is not None or not same_doc_tol(got, want_shared):
+            r.mismatches.append({'what': f'undictify_all_complex_values(description with a block used four times, {notation} notation)', 'got': repr(e or got)[:400], 'want': repr(want_shared)[:400],
+                                 'signature': f'written:{notation}:shared_block', 'detail': ''})
+        import yaml as _yaml
+        ytext = _yaml.dump(shared)
+        if '*id' in ytext:
+            tg.add('yaml_alias')
+        got, e = call(dump_load.deserialize, ytext, 'yaml')
+        r.observations += 1
+        if e is not None or not same_doc_tol(got, want_shared):
+            r.mismatches.append({'what': f'deserialize(YAML text with anchors and aliases, {notation} notation)', 'got': repr(e or got)[:400], 'want': repr(want_shared)[:400],
+                                 'signature': f'written_text:{notation}:yaml_alias', 'detail': ytext[:300]})
         text = _json.dumps(written_doc(case['ndoc'], notation))
         got, e = call(dump_load.deserialize, text, 'json')
         r.observations += 1
